@@ -144,6 +144,34 @@ def coerceAddressInto : Ty → Ty → Bool
      | _ => false)
   | _, _ => false
 
+/-- `can_subautoderef_into` (private): what can be reached by following pointers and views below the first one -/
+def subAutoderef : Ty → Ty → Bool
+  | .view d, o => equals d o || subAutoderef d o || (match o with | .view t => subAutoderef d t | _ => false)
+  | .pointer d, o => equals d o || subAutoderef d o || (match o with | .pointer t => subAutoderef d t | _ => false)
+  | _, _ => false
+
+/-- `can_autoderef_into`: the type a reference of type `self` may be read as where `other` is expected -/
+def autoderef : Ty → Ty → Bool
+  | .array a n, o => equals (.array a n) o || coerceInto (.array a n) o
+  | .arrayNamed a x, o => equals (.arrayNamed a x) o || coerceInto (.arrayNamed a x) o
+  | .slice a, o => equals (.slice a) o || coerceInto (.slice a) o
+  | .slicePtr a, o => equals (.slicePtr a) o || coerceInto (.slicePtr a) o
+  | .endless a, o => equals (.endless a) o || coerceInto (.endless a) o
+  | .struct i, o => equals (.struct i) o || coerceInto (.struct i) o
+  | .view d, o =>
+    equals (.view d) o || equals d o || subAutoderef d o || (match o with | .view t => subAutoderef d t | _ => false)
+  | .pointer d, o =>
+    equals (.pointer d) o || equals d o || coerceAddressInto d o || subAutoderef d o
+      || (match o with | .pointer t => subAutoderef d t | _ => false)
+  | _, _ => false
+
+/-- does the type hold an address anywhere (a pointer or a slice pointer)? -/
+def holdsAddress : Ty → Bool
+  | .pointer _ => true
+  | .slicePtr _ => true
+  | .array t _ | .arrayNamed t _ | .slice t | .endless t | .arraylike t | .view t => holdsAddress t
+  | _ => false
+
 /-- `do_update_symbol` (typer.rs): `ot` is the type the symbol has, `vt` the type it now receives; `symAuth`: the symbol's
     type was written by the programmer, `newAuth`: the new type was.  `none` is E500 / E504 / E512 (conflicting types). -/
 def update (ot vt : Ty) (symAuth newAuth : Bool) : Option Ty :=
